@@ -408,12 +408,18 @@ func (w *worker) runC14(p *harness.Pkg, t *tape.Tape, logOn bool) *verdict {
 		return &verdict{pkg: p, plan: plan, counters: map[string]int{"runs_on_package_without_usable_ops": 1}, probes: map[string]int{}}
 	}
 	plan.NilAuth = t.Flip(1, 8, "nil-auth")
+	plan.NilCORS = t.Flip(1, 8, "nil-cors")
+	plan.NilSpec = t.Flip(1, 8, "nil-spec")
+	plan.CustomNotFound = t.Flip(1, 4, "custom-not-found")
 	n := 1 + t.Choose(4, "requests")
 	for i := 0; i < n; i++ {
 		var rp harness.ReqPlan
-		if t.Choose(4, "kind") == 3 {
+		switch t.Choose(6, "kind") {
+		case 3:
 			rp = drawReq(t, p, ops, i) // a valid typed call under nasty stream faults
-		} else {
+		case 4:
+			rp = specialRaw(t, p, ops, i) // spec file, not found, CORS preflight
+		default:
 			rp = drawRaw(t, p, ops, i, 4)
 		}
 		f := &rp.Faults
@@ -526,6 +532,9 @@ func (w *worker) runC20(p *harness.Pkg, t *tape.Tape, logOn bool) *verdict {
 	}
 	plan.HashEvery = 16
 	plan.NilAuth = t.Flip(1, 10, "nil-auth")
+	plan.NilCORS = t.Flip(1, 10, "nil-cors")
+	plan.NilSpec = t.Flip(1, 10, "nil-spec")
+	plan.CustomNotFound = t.Flip(1, 4, "custom-not-found")
 	si := t.Choose(len(c20Sizes), "concurrency")
 	if si >= 6 && t.Choose(3, "really-large") != 0 {
 		si = t.Choose(6, "concurrency")
